@@ -6,6 +6,7 @@
 #include "guard.h"
 #include <igris/defs/vt100.h>
 #include <igris/dprint/dprint.h>
+#include <igris/util/ctype.h>
 #include <igris/util/hexascii.h>
 #include <igris/util/numconvert.h>
 #include <climits>
@@ -44,33 +45,14 @@ extern "C" void debug_write(const char *c, int n)
         debug_putchar(c[i]);
 }
 
-// ---------------------------------------------------------------- reference renderers
-static inline char digit_lc(unsigned d) { return (char)(d < 10 ? '0' + d : 'a' + (d - 10)); }
-static inline char digit_uc(unsigned d) { return (char)(d < 10 ? '0' + d : 'A' + (d - 10)); }
-// magnitude -> digits (lower case), most significant first, no leading zeros; returns length
-static int ref_digits(uint64_t mag, unsigned base, char *out)
-{
-    char tmp[72];
-    int n = 0;
-    do
-    {
-        tmp[n++] = digit_lc((unsigned)(mag % base));
-        mag /= base;
-    } while (mag);
-    for (int i = 0; i < n; i++)
-        out[i] = tmp[n - 1 - i];
-    out[n] = 0;
-    return n;
-}
-static int ref_text(uint64_t mag, bool neg, unsigned base, char *out)
-{
-    int n = 0;
-    if (neg)
-        out[n++] = '-';
-    return n + ref_digits(mag, base, out + n);
-}
-static inline uint64_t mag_of(int64_t v) { return v < 0 ? 0 - (uint64_t)v : (uint64_t)v; }
-
+#include "c07_refs.h"
+#include "early_fork.h"
+// REDUCED: second build with -funsigned-char runs a fraction of the workload
+#ifdef C07_REDUCED
+static const uint64_t REDUCE = 8;
+#else
+static const uint64_t REDUCE = 1;
+#endif
 // digit-string odometer: the text of k+1 from the text of k
 struct Odo
 {
@@ -589,6 +571,8 @@ VF_SUITE(w8, w8_count, w8_run)
 static uint64_t w16_count() { return 35 * 16; }
 static void w16_run(uint64_t c)
 {
+    if (REDUCE > 1 && c % 4 != vf::seed() % 4)
+        return; // reduced build: every 4th block
     unsigned base = 2 + (unsigned)(c / 16);
     uint64_t lo = (c % 16) * 4096;
     for (uint64_t p = lo; p < lo + 4096; p++)
@@ -612,7 +596,7 @@ VF_SUITE(w16, w16_count, w16_run)
 
 // (c) boundary-biased 32-bit and 64-bit (value, base) pairs
 static const uint64_t RB = 1000;
-static uint64_t w32_count() { return (vf::thorough() ? 8000000ull : 2000000ull) / RB; }
+static uint64_t w32_count() { return (vf::thorough() ? 8000000ull : 2000000ull) / RB / REDUCE; }
 static void w32_run(uint64_t c)
 {
     vf::Rng r(vf::seed(), 0xC0732, c);
@@ -634,7 +618,7 @@ static void w32_run(uint64_t c)
 }
 VF_SUITE(w32, w32_count, w32_run)
 
-static uint64_t w64_count() { return (vf::thorough() ? 24000000ull : 1000000ull) / RB; }
+static uint64_t w64_count() { return (vf::thorough() ? 24000000ull : 1000000ull) / RB / REDUCE; }
 static void w64_run(uint64_t c)
 {
     vf::Rng r(vf::seed(), 0xC0764, c);
@@ -660,7 +644,7 @@ VF_SUITE(w64, w64_count, w64_run)
 //     the other 30 bases on a stride-coprime subsequence of 2^22 patterns each
 static const unsigned SWEEP_BASES[5] = {2, 8, 10, 16, 36};
 // thorough: bases 10 and 16 complete (2 x 65536 blocks), bases 2, 8, 36 every 8th block (3 x 8192 blocks, offset by the seed)
-static uint64_t sweep_count() { return vf::thorough() ? 2ull * 65536 + 3ull * 8192 : 5ull * 8; }
+static uint64_t sweep_count() { return vf::thorough() && REDUCE == 1 ? 2ull * 65536 + 3ull * 8192 : 5ull * 8; }
 static void sweep_chunk(unsigned base, uint32_t lo)
 {
     // unsigned view: lo .. lo+65535 ascending; signed view: ascending magnitude
@@ -734,7 +718,7 @@ static void sweep_chunk(unsigned base, uint32_t lo)
 }
 static void sweep_run(uint64_t c)
 {
-    if (vf::thorough())
+    if (vf::thorough() && REDUCE == 1)
     {
         if (c < 2 * 65536)
             sweep_chunk(c < 65536 ? 10 : 16, (uint32_t)(c % 65536) << 16);
@@ -757,7 +741,7 @@ static void sweep_run(uint64_t c)
 VF_SUITE(sweep32, sweep_count, sweep_run)
 
 // the remaining 30 bases: p = k * odd stride (a permutation of the 32-bit patterns), 2^22 (thorough) / 2^14 (quick) patterns each
-static uint64_t stride_per_base() { return vf::thorough() ? (1ull << 22) : (1ull << 14); }
+static uint64_t stride_per_base() { return vf::thorough() ? (1ull << 22) / REDUCE : (1ull << 14); }
 static const uint64_t STRIDE_BATCH = 4096;
 static uint64_t stride_count() { return 30 * stride_per_base() / STRIDE_BATCH; }
 static void stride_run(uint64_t c)
@@ -855,7 +839,7 @@ VF_SUITE(digitless, digitless_count, digitless_run)
 // (g) field splitter: one line of separated fields (numbers, empty fields, lone signs), parsed field by field with ONE end
 //     variable that is never reset by the caller; a parser that leaves *end alone reports the end of the previous field.
 static const uint64_t SB = 100;
-static uint64_t split_count() { return (vf::thorough() ? 400000ull : 30000ull) / SB; }
+static uint64_t split_count() { return (vf::thorough() ? 400000ull : 30000ull) / SB / REDUCE; }
 static void split_run(uint64_t c)
 {
     vf::Rng r(vf::seed(), 0xC075, c);
@@ -940,6 +924,138 @@ static void split_run(uint64_t c)
 }
 VF_SUITE(splitter, split_count, split_run)
 
+
+// (h) include-order independence: the inline helpers compiled in translation units whose FIRST include is the igris header
+//     (first_hex.c, first_ctype.c, first_vt100.c, first_vt100.cpp) must behave like those of this TU / the reference.
+extern "C"
+{
+    uint8_t fc7_hex2half(char c);
+    char fc7_half2hex(uint8_t n);
+    int fc7_isalnum(int c);
+    int fc7_isdigit(int c);
+    int fc7_isxdigit(int c);
+    int fc7_isspace(int c);
+    int fc7_vt100_left(char *buf, int arg);
+    int fx7_vt100_left(char *buf, int arg);
+}
+static uint64_t first_count() { return 1; }
+static void first_run(uint64_t)
+{
+    vf::cls("first-include");
+    for (unsigned d = 0; d < 36; d++)
+    {
+        if (fc7_hex2half(digit_lc(d)) != d || fc7_hex2half(digit_uc(d)) != d || hex2half(digit_lc(d)) != d || hex2half(digit_uc(d)) != d)
+            vf::fail("first-include:hex2half", "digit value %u: first-include TU gives %u/%u, this TU %u/%u", d, fc7_hex2half(digit_lc(d)),
+                     fc7_hex2half(digit_uc(d)), hex2half(digit_lc(d)), hex2half(digit_uc(d)));
+        if (d < 16 && fc7_half2hex((uint8_t)d) != digit_uc(d))
+            vf::fail("first-include:half2hex", "nibble %u -> '%c'", d, fc7_half2hex((uint8_t)d));
+    }
+    for (int c = -128; c < 256; c++)
+    {
+        bool dig = c >= '0' && c <= '9', low = c >= 'a' && c <= 'z', up = c >= 'A' && c <= 'Z';
+        bool xd = dig || (c >= 'a' && c <= 'f') || (c >= 'A' && c <= 'F'), sp = c == ' ' || (c >= 9 && c <= 13);
+        if (!!fc7_isalnum(c) != (dig || low || up) || !!fc7_isdigit(c) != dig || !!fc7_isxdigit(c) != xd || !!fc7_isspace(c) != sp ||
+            !!igris_isalnum(c) != (dig || low || up) || !!igris_isdigit(c) != dig || !!igris_isxdigit(c) != xd || !!igris_isspace(c) != sp)
+            vf::fail("first-include:ctype", "character code %d classified differently from ASCII", c);
+    }
+    static const int ARGS[] = {0, 1, 9, 10, 255, 32767, -1, -32768, INT_MAX, INT_MIN};
+    for (int a : ARGS)
+    {
+        char t[72], b1[40], b2[40];
+        ref_text(mag_of(a), a < 0, 10, t);
+        std::string ref = std::string("\x1B[") + t + "D";
+        int r1 = fc7_vt100_left(b1, a), r2 = fx7_vt100_left(b2, a);
+        if (ref != b1 || ref != b2 || r1 != (int)ref.size() || r2 != (int)ref.size())
+            vf::fail("first-include:vt100_left", "arg=%d C: \"%s\" (%d) C++: \"%s\" (%d)", a, vf::esc(b1, strlen(b1)).c_str(), r1, vf::esc(b2, strlen(b2)).c_str(), r2);
+    }
+    VF_OK("inline helpers (hex2half, half2hex, igris_is*, vt100_left) behave the same in TUs that include the igris header first");
+    vf::count_bulk(1, 1);
+}
+VF_SUITE(first_include, first_count, first_run)
+
+// (i) calls made during static initialisation of this (earlier-linked) TU, in a forked child; compared by a case.
+struct EarlyData7
+{
+    EarlyText toa[6], shim[4], dpr[3], vt;
+    long long parsed[4], atolv;
+    long endoff[4];
+    long ret_off[2];
+};
+static void early_calls7(EarlyData7 &E)
+{
+    char b[80];
+    char *r;
+    r = igris_i64toa(INT64_MIN, b, 16), E.toa[0].set(b, strlen(b)), E.ret_off[0] = r - b;
+    r = igris_u64toa(UINT64_MAX, b, 36), E.toa[1].set(b, strlen(b)), E.ret_off[1] = r - b;
+    igris_i32toa(-255, b, 16), E.toa[2].set(b, strlen(b));
+    igris_u16toa(65535, b, 2), E.toa[3].set(b, strlen(b));
+    igris_i8toa(-128, b, 10), E.toa[4].set(b, strlen(b));
+    igris_u32toa(0, b, 7), E.toa[5].set(b, strlen(b));
+    igc_itoa(INT_MIN, b, 10), E.shim[0].set(b, strlen(b));
+    igc_utoa(4000000000u, b, 16), E.shim[1].set(b, strlen(b));
+    igc_ltoa(LONG_MIN, b, 8), E.shim[2].set(b, strlen(b));
+    igc_ultoa(ULONG_MAX, b, 36), E.shim[3].set(b, strlen(b));
+    char *e = (char *)1;
+    E.parsed[0] = igris_atoi64("-7fffffffffffffffz", 16, &e), E.endoff[0] = e == (char *)1 ? -999 : (long)strlen(e);
+    e = (char *)1;
+    E.parsed[1] = (long long)igris_atou64("ZZ9 ", 36, &e), E.endoff[1] = e == (char *)1 ? -999 : (long)strlen(e);
+    e = (char *)1;
+    E.parsed[2] = igris_atoi32("-2147483648", 10, &e), E.endoff[2] = e == (char *)1 ? -999 : (long)strlen(e);
+    e = (char *)1;
+    E.parsed[3] = igris_atou8("11111111x", 2, &e), E.endoff[3] = e == (char *)1 ? -999 : (long)strlen(e);
+    E.atolv = igc_atol("-9223372036854775807 ");
+    g_capn = 0, debug_printdec_signed_long_long(LLONG_MIN), E.dpr[0].set(g_cap, g_capn);
+    g_capn = 0, debug_printhex_uint32(0x89ABCDEFu), E.dpr[1].set(g_cap, g_capn);
+    g_capn = 0, debug_printbin_uint8(0xA5), E.dpr[2].set(g_cap, g_capn);
+    vt100_left(b, -42), E.vt.set(b, strlen(b));
+}
+static EarlyRun<EarlyData7> g_early7(early_calls7);
+static uint64_t early_count() { return 1; }
+static void early_run(uint64_t)
+{
+    vf::cls("static-init");
+    if (g_early7.hung)
+        vf::fail("static-init:hang", "a call made during static initialisation did not return within 5 s of CPU time");
+    if (g_early7.died)
+        vf::fail("static-init:crash", "the child that calls the converters during static initialisation died (sanitizer report in stderr.txt)");
+    const EarlyData7 &E = *g_early7.data;
+    auto same = [](const EarlyText &t, const char *want) {
+        if (t.len != strlen(want))
+            return false;
+        for (unsigned i = 0; i < t.len; i++)
+            if (tolower((unsigned char)t.d[i]) != tolower((unsigned char)want[i]))
+                return false;
+        return true;
+    };
+    static const char *TOA[6] = {"-8000000000000000", "3w5e11264sgsf", "-ff", "1111111111111111", "-128", "0"};
+    for (int i = 0; i < 6; i++)
+        if (!same(E.toa[i], TOA[i]))
+            vf::fail("static-init:igris_*toa:!=reference", "call %d gave \"%s\" want \"%s\"", i, vf::esc(E.toa[i].d, E.toa[i].len).c_str(), TOA[i]);
+    if (E.ret_off[0] != 17 || E.ret_off[1] != 13)
+        vf::fail("static-init:igris_*toa:returned-pointer", "offsets %ld %ld", E.ret_off[0], E.ret_off[1]);
+    static const char *SHIM[4] = {"-2147483648", "ee6b2800", "-1000000000000000000000", "3w5e11264sgsf"};
+    for (int i = 0; i < 4; i++)
+        if (!same(E.shim[i], SHIM[i]))
+            vf::fail("static-init:itoa-family:!=reference", "call %d gave \"%s\" want \"%s\"", i, vf::esc(E.shim[i].d, E.shim[i].len).c_str(), SHIM[i]);
+    static const long long PV[4] = {-0x7fffffffffffffffLL, 35 * 36 * 36 + 35 * 36 + 9, -2147483648LL, 255};
+    static const long PE[4] = {1, 1, 0, 1}; // characters left behind *end
+    for (int i = 0; i < 4; i++)
+        if (E.parsed[i] != PV[i] || E.endoff[i] != PE[i])
+            vf::fail("static-init:igris_ato*:!=reference", "call %d value %lld (want %lld), %ld characters behind *end (want %ld)", i, E.parsed[i], PV[i],
+                     E.endoff[i], PE[i]);
+    if (E.atolv != -9223372036854775807LL)
+        vf::fail("static-init:atol:!=reference", "got %lld", E.atolv);
+    static const char *DPR[3] = {"-9223372036854775808", "89ABCDEF", "10100101"};
+    for (int i = 0; i < 3; i++)
+        if (!same(E.dpr[i], DPR[i]))
+            vf::fail("static-init:dprint:!=reference", "call %d emitted \"%s\" want \"%s\"", i, vf::esc(E.dpr[i].d, E.dpr[i].len).c_str(), DPR[i]);
+    if (!same(E.vt, "\x1B[-42D"))
+        vf::fail("static-init:vt100_left:!=reference", "got \"%s\"", vf::esc(E.vt.d, E.vt.len).c_str());
+    VF_OK("converters called during static initialisation of an earlier-linked TU == reference");
+    vf::count_bulk(1, 1);
+}
+VF_SUITE(static_init, early_count, early_run)
+
 extern "C" void vf_setup()
 {
     for (const char *c : {"igris_i*toa text == reference (case-insensitive, uniform case, NUL and returned pointer at the end)",
@@ -953,6 +1069,8 @@ extern "C" void vf_setup()
                           "vt100_left == ESC [ decimal D, returns its length",
                           "sweep: i32toa/u32toa == odometer reference; atoi32/atou32 read the text back",
                           "digit-less text: *end written, at the start (signed: or behind a lone '-'), value 0",
-                          "field splitter: one reused end variable follows every field, empty fields and lone signs included"})
+                          "field splitter: one reused end variable follows every field, empty fields and lone signs included",
+                          "inline helpers (hex2half, half2hex, igris_is*, vt100_left) behave the same in TUs that include the igris header first",
+                          "converters called during static initialisation of an earlier-linked TU == reference"})
         vf::require(c);
 }
